@@ -10,6 +10,7 @@ verus! {
 //@include prelude/opaque_command.rs
 //@include prelude/std_specs.rs
 //@include prelude/wire_traits.rs
+//@include prelude/opaque_maindevice.rs
 //@include prelude/received_pdu.rs
 
 /*@type file=src/command/reads.rs name=Reads derive="Clone, Copy, PartialEq, Eq, Debug" @*/
